@@ -132,6 +132,8 @@ def specials():
         "two-dests": cd0 + ["JUMP", ("LABEL", "a"), ("PUSH", 7)] + R32 + [("PUSH", 0x5B5B, 2), ("LABEL", "b"), ("PUSH", 9)] + R32,
         "masked": cd0 + [("PUSH", 0x1F), "AND", "JUMP", ("LABEL", "a"), ("PUSH", 7)] + R32 + [("LABEL", "b"), ("PUSH", 9)] + R32,
         "no-dest": cd0 + ["JUMP", ("PUSH", 7)] + R32,
+        "one-dest": cd0 + ["JUMP", ("LABEL", "a"), ("PUSH", 7)] + R32,
+        "one-dest-masked": cd0 + [("PUSH", 0x07), "AND", "JUMP", ("PUSH", 1), ("LABEL", "a"), ("PUSH", 7)] + R32,
     }.items():
         sp(f"symjump-{nm}", code, "symbolic-jump", options={"symbolic_jump": True})
     sp("symjump-off", cd0 + ["JUMP", ("LABEL", "a"), ("PUSH", 7)] + R32, "symbolic-jump-off")
